@@ -56,7 +56,7 @@ Proof.
   - now rewrite (IH Hr Hin).
 Qed.
 
-(* ---------- scalars ---------- *)
+(* ---------- scalars; the packed id array of the SPECIFICATION side ---------- *)
 Lemma iwidth_pos k : 0 < iwidth k.
 Proof. destruct k; cbn; lia. Qed.
 
@@ -82,32 +82,32 @@ Proof.
   pose proof (le_enc_bytes 2 x) as H. rewrite forallb_forall in H. now apply H.
 Qed.
 
-Lemma pack_ok k : forall l, forallb (irange k) l = true -> pack k l = Ok (concat (map (ienc k) l)).
+Lemma spec_pack_ok k : forall l, forallb (irange k) l = true -> spec_pack k l = Ok (concat (map (ienc k) l)).
 Proof.
   induction l as [|x r IH]; intros H; [reflexivity|].
   cbn [forallb] in H. apply andb_true_iff in H. destruct H as [H1 H2].
-  cbn [pack map concat]. now rewrite H1, (IH H2).
+  cbn [spec_pack map concat]. now rewrite H1, (IH H2).
 Qed.
 
-Lemma pack_spec k : forall l e, pack k l = Ok e -> e = concat (map (ienc k) l).
+Lemma spec_pack_spec k : forall l e, spec_pack k l = Ok e -> e = concat (map (ienc k) l).
 Proof.
   induction l as [|x r IH]; intros e H.
   - cbn in H. now injection H as <-.
-  - cbn [pack] in H. destruct (irange k x); [|discriminate].
-    destruct (pack k r) as [t| | |]; cbn [rbind] in H; try discriminate.
+  - cbn [spec_pack] in H. destruct (irange k x); [|discriminate].
+    destruct (spec_pack k r) as [t| | |]; cbn [rbind] in H; try discriminate.
     injection H as <-. cbn [map concat]. now rewrite (IH t eq_refl).
 Qed.
 
-Lemma unpack_f_pack k : forall l fuel,
+Lemma spec_unpack_f_pack k : forall l fuel,
     length l <= fuel -> forallb (irange k) l = true ->
-    unpack_f fuel k (concat (map (ienc k) l)) = l.
+    spec_unpack_f fuel k (concat (map (ienc k) l)) = l.
 Proof.
   induction l as [|x r IH]; intros fuel Hf H.
-  - cbn [map concat]. destruct fuel; [reflexivity|]. cbn [unpack_f length].
+  - cbn [map concat]. destruct fuel; [reflexivity|]. cbn [spec_unpack_f length].
     pose proof (iwidth_pos k). destruct (0 <? iwidth k) eqn:E; [reflexivity|lia].
   - destruct fuel as [|fuel]; [cbn in Hf; lia|].
     cbn [forallb] in H. apply andb_true_iff in H. destruct H as [H1 H2].
-    cbn [map concat unpack_f]. rewrite app_length, ienc_length.
+    cbn [map concat spec_unpack_f]. rewrite app_length, ienc_length.
     destruct (iwidth k + length (concat (map (ienc k) r)) <? iwidth k) eqn:E; [lia|].
     rewrite (t8_firstn_app_len _ _ _ (ienc_length k x)), (t8_skipn_app_len _ _ _ (ienc_length k x)).
     rewrite idec_ienc by exact H1. f_equal. apply IH; [cbn in Hf; lia|exact H2].
@@ -119,9 +119,9 @@ Proof.
   cbn [map concat length]. rewrite app_length, ienc_length, IH. lia.
 Qed.
 
-Theorem unpack_pack k l : forallb (irange k) l = true -> unpack k (concat (map (ienc k) l)) = l.
+Theorem spec_unpack_pack k l : forallb (irange k) l = true -> spec_unpack k (concat (map (ienc k) l)) = l.
 Proof.
-  intros H. unfold unpack. apply unpack_f_pack; [|exact H].
+  intros H. unfold spec_unpack. apply spec_unpack_f_pack; [|exact H].
   rewrite concat_ienc_length. pose proof (iwidth_pos k). nia.
 Qed.
 
@@ -129,12 +129,12 @@ Qed.
    the ids it decodes to: no byte value is special (0x00 in particular) *)
 Theorem pack_unpack_u16 : forall b fuel,
     all_bytes b = true -> Nat.even (length b) = true -> length b <= fuel ->
-    concat (map (ienc U16) (unpack_f fuel U16 b)) = b.
+    concat (map (ienc U16) (spec_unpack_f fuel U16 b)) = b.
 Proof.
   intros b fuel. revert b. induction fuel as [|fuel IH]; intros b Hb He Hf.
   - destruct b; [reflexivity|cbn in Hf; lia].
   - destruct b as [|lo [|hi r]]; [reflexivity|cbn in He; discriminate|].
-    cbn [unpack_f length iwidth]. cbn [Nat.ltb Nat.leb].
+    cbn [spec_unpack_f length iwidth]. cbn [Nat.ltb Nat.leb].
     cbn [firstn skipn map concat idec ienc iwidth].
     unfold all_bytes in *. cbn [forallb] in Hb.
     apply andb_true_iff in Hb. destruct Hb as [Hlo Hb]. apply andb_true_iff in Hb. destruct Hb as [Hhi Hr].
@@ -386,10 +386,6 @@ Section Main.
       + destruct l; [discriminate|discriminate].
       + exact Hall.
       + cbn [enc dec]. rewrite He. exists e. split; [reflexivity|]. split; [exact Hen|]. now rewrite Hd.
-    - (* packed ints *) apply andb_true_iff in Hf. destruct Hf as [Hne Hall].
-      cbn [enc dec]. rewrite (pack_ok k ids Hall). eexists. split; [reflexivity|]. split.
-      + destruct ids as [|x r]; [discriminate|]. cbn [map concat]. apply app_nonnil_l, ienc_nonnil.
-      + now rewrite unpack_pack.
   Qed.
 
   (* a whole message: additionally the all-unset message (empty byte string) *)
@@ -476,7 +472,7 @@ Section Main.
     - now injection H as <-.
     - now apply (enc_fields_spec (enc F n) (spec F n) IH).
     - apply (enc_seq_spec (enc F n) (spec F n) IH) in H. destruct l; [exact H|]. exact H.
-    - now apply pack_spec.
+    - destruct ids; [now injection H as <-|discriminate].
   Qed.
 End Main.
 
@@ -545,4 +541,48 @@ Proof.
   exists (TStruct [(128%N, TBytes); (128%N, TBytes)]), (VStruct [Some (VB [1%N]); None]), [128%N; 1%N; 1%N].
   split; [vm_compute; reflexivity|]. split; [vm_compute; reflexivity|]. split; [vm_compute; reflexivity|].
   vm_compute. discriminate.
+Qed.
+
+(* ---------- Sequence[u16] (linked services): the current code against the packed-array spec ---------- *)
+(* known finding.  The wire form of n ids is [concat (map (ienc U16) l)] (spec side); the
+   code decodes it through tlv_array.  Witnesses, all replayed on the implementation:
+     [256]     = 00 01        -> [0]          (zero low byte is taken for a list separator)
+     [16; 32]  = 10 00 20 00  -> [2097168]    (no separator found: one 4-byte integer)
+     [256; 16] = 00 01 10 00  -> IndexError
+   and encoding any non-empty list raises AttributeError. *)
+Lemma sequ16_refuted_cases :
+  tlv8_decode (TSeqInt U16) (concat (map (ienc U16) [256%N])) = Ok (VIds [0%N]) /\
+  tlv8_decode (TSeqInt U16) (concat (map (ienc U16) [16%N; 32%N])) = Ok (VIds [2097168%N]) /\
+  tlv8_decode (TSeqInt U16) (concat (map (ienc U16) [256%N; 16%N])) = Crash /\
+  tlv8_encode (TSeqInt U16) (VIds [1%N]) = Err EAttr /\
+  tlv8_decode (TStruct [(15%N, TInt U16); (16%N, TSeqInt U16)]) [15%N; 2%N; 7%N; 0%N; 16%N; 2%N; 0%N; 1%N]
+    = Ok (VStruct [Some (VInt 7); Some (VIds [0%N])]).
+Proof. repeat split; vm_compute; reflexivity. Qed.
+
+Lemma sequ16_refuted :
+  exists l, forallb (irange U16) l = true /\
+            tlv8_decode (TSeqInt U16) (concat (map (ienc U16) l)) <> Ok (VIds l).
+Proof. exists [256%N]. split; [reflexivity|]. vm_compute. discriminate. Qed.
+
+(* the one sub-domain where the current decoder is right: a single id whose low byte
+   is not zero (stated on the two wire bytes lo hi) *)
+Lemma sequ16_single_id_ok lo hi :
+  lo <> 0%N -> tlv8_decode (TSeqInt U16) [lo; hi] = Ok (VIds [(lo + 256 * (hi + 256 * 0))%N]).
+Proof.
+  intros Hlo. unfold tlv8_decode, fuel_of. cbn [ty_depth dec].
+  assert (E : tlv_array 255 [lo; hi] = ([[lo; hi]], FinOk)).
+  { unfold tlv_array. cbn [length]. rewrite arr_f_step by discriminate.
+    cbn [step length]. rewrite gather_eq. cbv zeta.
+    rewrite firstn_nil, skipn_nil.
+    assert (Hstop : (if N.eqb hi (N.of_nat 255) then match skipn 255 (@nil N) with
+              | [] => Ok {| y_tag := lo; y_len := hi; y_val := []; y_pre := []; y_last := []; y_next := [] |}
+              | t' :: r => if N.eqb t' lo then match r with [] => Crash
+                   | l' :: body' => gather 255 0 lo l' body' ([] ++ firstn (N.to_nat l') body') ([] ++ lo :: hi :: firstn 255 [])
+                   end else Ok {| y_tag := lo; y_len := hi; y_val := []; y_pre := []; y_last := []; y_next := [] |} end
+              else Ok {| y_tag := lo; y_len := hi; y_val := []; y_pre := []; y_last := []; y_next := [] |})
+            = Ok {| y_tag := lo; y_len := hi; y_val := []; y_pre := []; y_last := []; y_next := [] |}).
+    { rewrite skipn_nil. destruct (N.eqb hi (N.of_nat 255)); reflexivity. }
+    rewrite Hstop. cbn [y_tag y_pre y_last y_next y_len].
+    destruct (N.eqb_spec lo 0); [contradiction|]. reflexivity. }
+  rewrite E. reflexivity.
 Qed.
